@@ -545,6 +545,9 @@ def _unwrap_or_default(e, c, a):
     if t in INT_TYPES: return 0
     if t == 'bool': return False
     if t == 'Vec': return VecObj()
+    if m:
+        f = e.resolve('<%s as Default>::default' % strip_generics(m.group(1)))       # a type of the crate: its own Default impl
+        if f is not None: return e.call_mir(f, [])
     raise Unsupported('unwrap_or_default ' + c)
 @model('Option::filter')
 def _opt_filter(e, c, a):
@@ -811,7 +814,7 @@ def _cell_new(e, c, a): return CellObj(a[0], 'refcell')
        'panic_const::panic_const_rem_by_zero', 'panic_const::panic_const_shl_overflow', 'slice_index_order_fail', 'slice_end_index_len_fail', 'slice_start_index_len_fail', 'str::slice_error_fail')
 def _panic0(e, c, a): raise RustPanic('explicit panic: ' + strip_generics(c))
 @model('hint::unreachable_unchecked', 'panicking::panic', 'panicking::panic_fmt', 'panicking::unreachable_display', 'option::expect_failed', 'result::unwrap_failed',
-       'panicking::panic_explicit', 'panicking::assert_failed', 'panicking::panic_display', 'rt::begin_panic', 'panicking::panic_nounwind')
+       'panicking::panic_explicit', 'panicking::assert_failed', 'panicking::panic_display', 'rt::begin_panic', 'panicking::panic_nounwind', 'rt::panic_fmt', 'rt::panic_display')
 def _panic(e, c, a): raise RustPanic('explicit panic: ' + strip_generics(c))
 @model('hint::black_box', 'convert::identity')
 def _identity(e, c, a): return a[0]
